@@ -94,7 +94,7 @@ func txSegs(tx *btc.Tx) (s []Seg) {
 // Commands of the alphabet, in the order of the specification's Cmds.
 // A name with a trailing digit is a second valid instance of the same wire command (see wireName).
 var allCmds = []string{"version", "verack", "addr", "inv", "getdata", "notfound", "getblocks", "getheaders", "headers", "headers2",
-	"tx", "block", "block2", "cmpctblock", "cmpctblock2", "getblocktxn", "getblocktxn1", "getblocktxn3", "blocktxn", "ping", "pong",
+	"tx", "txo1", "txo2", "block", "block2", "cmpctblock", "cmpctblock2", "cmpctblock3", "cmpctblock4", "getblocktxn", "getblocktxn1", "getblocktxn3", "blocktxn", "ping", "pong",
 	"feefilter", "sendcmpct", "sendheaders", "getaddr", "getmp", "getmpdone", "xauth", "authack", "filterload", "unknown", "frame"}
 
 func wireName(cmd string) string {
@@ -105,8 +105,10 @@ func wireName(cmd string) string {
 		return "headers"
 	case "block2":
 		return "block"
-	case "cmpctblock2":
+	case "cmpctblock2", "cmpctblock3", "cmpctblock4":
 		return "cmpctblock"
+	case "txo1", "txo2":
+		return "tx"
 	case "getblocktxn1", "getblocktxn3":
 		return "getblocktxn"
 	}
@@ -160,6 +162,20 @@ func (w *World) valid(cmd string, nodeNonce []byte) []Seg {
 		s := []Seg{segF(w.b1[:80]), segF(nonce), segC(1, 6), segF(sid), segC(1, 0), segV(0, 2)}
 		s = append(s, txSegs(w.cb1)...)
 		return s
+	case "txo1": // orphans: their input is unknown, so they wait in the pool of rejected transactions
+		return txSegs(w.orph[0])
+	case "txo2":
+		return txSegs(w.orph[1])
+	case "cmpctblock3": // B1 with every transaction prefilled (differential indexes 0, 0), no short ids
+		s := []Seg{segF(w.b1[:80]), segF([]byte{1, 2, 3, 4, 5, 6, 7, 8}), segC(0, 6), segC(2, 0), segV(0, 2)}
+		s = append(s, txSegs(w.cb1)...)
+		s = append(s, segV(0, 2))
+		return append(s, txSegs(w.tx1)...)
+	case "cmpctblock4": // B1's header with the one short id that both orphans have under this header and nonce
+		var sb [8]byte
+		binary.LittleEndian.PutUint64(sb[:], w.orphSid)
+		s := []Seg{segF(w.b1[:80]), segF(orphanNonce), segC(1, 6), segF(sb[:6]), segC(1, 0), segV(0, 2)}
+		return append(s, txSegs(w.cb1)...)
 	case "headers2": // a header whose parent the node does not know (unless it has B1's)
 		return []Seg{segC(1, 81), segF(append(append([]byte(nil), w.b2[:80]...), 0))}
 	case "block2": // a valid block whose parent the node does not know (unless it has B1's header)
@@ -324,13 +340,16 @@ func perturb(s []Seg, k string, f int, rnd *rand.Rand) (pl []byte, ok bool) {
 		}
 		o := append(append(cut(f-1), cs(x.N-1)...), join(s[f:last])...)
 		return append(o, join(s[i:])...), true
-	case "val+1", "val-1":
+	case "val+1", "val+2", "val-1":
 		x := fld("V")
 		if x == nil || (k == "val-1" && x.N == 0) {
 			return nil, false
 		}
 		if k == "val+1" {
 			return repl(cs(x.N+1), -1), true
+		}
+		if k == "val+2" {
+			return repl(cs(x.N+2), -1), true
 		}
 		return repl(cs(x.N-1), -1), true
 	case "lenover1", "lenfd", "lenfe", "lenff":
